@@ -38,7 +38,7 @@ def merge(cfg, e):
 
 def expected_value(cfg, e):
     args, kw = merge(cfg, e)
-    return [list(args), sorted([k, v] for k, v in kw.items())]
+    return [list(args), sorted([k, v] for k, v in kw.items())] + (['bytes[400000]'] if cfg.get('pad') else [])
 
 
 # model state: (n_accepted, n_delivered, closed, dead)  -- the accepted list itself is reconstructed from the history
@@ -54,6 +54,7 @@ def enabled(enq_names):
         if not closed and not dead:
             ops.append('die')
             ops.append('dieq')
+            ops.append('poisonq')
         if dlv == acc and not closed and not dead:
             ops.append('call')
         if closed or dead:
@@ -84,7 +85,7 @@ def step(st, op):
     elif op == 'die':
         dlv = acc
         dead = True
-    elif op == 'dieq':
+    elif op in ('dieq', 'poisonq'):
         dead = True
     return (min(acc, 3), min(dlv, 3), closed, dead) if False else (acc, dlv, closed, dead)
 
@@ -96,6 +97,8 @@ def abstract(st):
 
 def build_script(kind, cfg, hist, target):
     c = {'op': 'create', 'var': 'w', 'kind': kind, 'target': target}
+    if cfg.get('pad'):
+        c['slow_reader'] = {'chunk': 16384, 'sleep': 0.004}
     if cfg['args'] is not None:
         c['args'] = cfg['args']
         if cfg.get('tuple'):
@@ -121,11 +124,19 @@ def build_script(kind, cfg, hist, target):
             sc.append({'op': 'call', 'var': 'w', 'method': 'enqueue', 'args': ['POISON'], 'h': 'poison'})
             sc.append({'op': 'drain', 'var': 'w', 'h': 'drain', 'timeout': 6})
             sc.append({'op': 'poll_dead', 'var': 'w', 'h': 'poll-dead'})
+        elif op == 'poisonq':
+            # the input that kills the target is queued and the parent carries on at once: what it enqueues from now on may be
+            # accepted (and lost with the worker) or rejected, everything answered before must still arrive
+            sc.append({'op': 'call', 'var': 'w', 'method': 'enqueue', 'args': ['POISON'], 'h': 'poison-nowait'})
         elif op == 'dieq':
             # ... and dies quietly: the parent makes no call at all between the death and its next operation (the death is
             # awaited by looking at the thread / process itself, not through the worker's interface)
             sc.append({'op': 'call', 'var': 'w', 'method': 'enqueue', 'args': ['POISON'], 'h': 'poison'})
             sc.append({'op': 'child_dead', 'var': 'w', 'kind': kind, 'within': 8, 'h': 'child-dead'})
+            if kind == 'PR':
+                # a remote parent learns about the death from the final messages: "after death" starts when its frontend thread
+                # has seen them (observed on the thread object, not through the worker's interface)
+                sc.append({'op': 'child_dead', 'var': 'w', 'kind': 'PT', 'within': 20, 'h': 'child-dead'})
     # epilogue: end the worker and look at the totals
     sc += [{'op': 'call', 'var': 'w', 'method': 'wait', 'args': [10], 'h': 'final-wait'},
            {'op': 'drain', 'var': 'w', 'h': 'final-drain'},
@@ -146,12 +157,15 @@ def judge(cfg, hist, script, obs):
     accepted = []
     dlv = 0
     closed = dead = False
-    poisoned = False
+    poisoned = dying = False
     for op, st in zip(script[1:], steps[1:]):
         h = op['h']
         if st.get('harness_error'):
             return [('harness', st)]
-        if h in ENQ or h == 'enqueue-after-death':
+        if h in ENQ and dying:
+            if 'ret' not in st and st.get('exc') != 'WorkerClosedError':
+                return [('enqueue-fails', st)]
+        elif h in ENQ or h == 'enqueue-after-death':
             if closed or dead:
                 if st.get('exc') != 'WorkerClosedError':
                     return [('enqueue-after-%s-not-rejected' % ('death' if dead else 'close'), st)]
@@ -159,6 +173,11 @@ def judge(cfg, hist, script, obs):
                 if 'ret' not in st:
                     return [('enqueue-fails', st)]
                 accepted.append(ENQ[h])
+        elif h == 'poison-nowait':
+            if 'ret' not in st:
+                return [('enqueue-fails', st)]
+            poisoned = dying = True
+            dead = True
         elif h == 'poison':
             if 'ret' not in st:
                 return [('enqueue-fails', st)]
@@ -189,6 +208,7 @@ def judge(cfg, hist, script, obs):
             if st.get('ret') is not True:
                 return [('wait-returned-%s' % st.get('ret', st.get('exc', 'hang')), st)]
             closed = dead = True
+            dying = False
         elif h == 'call':
             exp = expected_value(cfg, ENQ['ez'])
             if st.get('ret') != exp:
@@ -216,7 +236,7 @@ def judge(cfg, hist, script, obs):
 
 
 def run(ctx):
-    ctx.rule = ('history = sequence over {5 enqueue variants, next_result, close, wait, call, drain, die (target raises, parent drains), dieq (target raises, parent makes no call)}; all histories up to the full depth, then '
+    ctx.rule = ('history = sequence over {5 enqueue variants, next_result, close, wait, call, drain, die (target raises, parent drains), dieq (target raises, parent makes no call), poisonq (the killing input is queued, the parent carries on at once)}; all histories up to the full depth, then '
                 'extended while the abstract state (outstanding, delivered, closed, dead) is new; x default configurations x {PT, PP, PR} x '
                 '{echo, mutating echo}; every history runs on a fresh real worker and ends with wait/drain/result/enqueue-after-death checks')
     quick = ctx.quick
@@ -238,6 +258,17 @@ def run(ctx):
                     sc = build_script(kind, cfg, h, target)
                     jobs.append({'script': sc})
                     plan.append((kind, cfg, h, sc, target))
+        if kind == 'PR':
+            # results bigger than the socket buffers, read slowly by the parent: whatever the child has answered must arrive, also
+            # when the child ends with input it never read (death of its own, close/wait racing with queued inputs)
+            for base in (CONFIGS[0], CONFIGS[3]) if not quick else (CONFIGS[0],):
+                cfg = dict(base, name=base['name'] + '+big-results-slow-reader', pad=True)
+                for h in hs:
+                    if len(h) > (3 if quick else 4) or not any(o in ENQ for o in h):
+                        continue
+                    sc = build_script(kind, cfg, h, 'echo_pad')
+                    jobs.append({'script': sc})
+                    plan.append((kind, cfg, h, sc, 'echo_pad'))
     res = land.run_cases(jobs, case_timeout=90)
     harness = 0
     for (kind, cfg, h, sc, target), obs in zip(plan, res):
